@@ -20,7 +20,8 @@ MANIFEST = {
             "correspondence in both arithmetic configurations on every run, plus exhaustive toy-curve tables in the thorough tier (tests).",
     "note": "libsecp256k1 is absent in this sandbox: its glue (ecdsa/native/secp256k1.py) is never executed. OpenSSL's EC_POINT_mul / "
             "BN_mod_inverse are compared differentially with the pure path and the model, not verified. #E(F_p) = n is a published fact "
-            "not provable here: order•P = ∞ is proved for P in <G> only.",
+            "not provable here: order•P = ∞ is proved for P in <G> only, and refuted for BLS12-381 G1, which has a cofactor (known finding "
+            "bls12-381-cofactor: r*(0,2) is reported as infinity).",
     "technique": "Lean 4 proof (Mathlib group law, ring/field identities, kernel-checked Pratt certificates) + differential correspondence "
                  "model vs implementation per backend + exhaustive toy-curve enumeration (test)",
 }
@@ -37,7 +38,18 @@ ASSUMPTIONS = [
 ]
 TRUSTED = ["translate/gen_curves.py reads (p,a,b,Gx,Gy,n) from the live generator objects; Pratt certificates come from sympy and are "
            "checked in the Lean kernel, so sympy is not trusted"]
-KNOWN = {}
+
+
+def _bls_cofactor(v) -> bool:
+    """BLS12-381 G1: multiply reduces the scalar modulo r, which is wrong for curve points outside the order-r subgroup"""
+    a = str(v.get("input", "")).split(" ")
+    if len(a) != 4 or a[0] != "ec_mul" or split_curve(a[1])[0] != "bls12_381" or "cofactor" not in str(v.get("what", "")):
+        return False
+    n = consts(a[1])[5]
+    return cc.impl("ec_mul_orderless %s %s %d" % (a[1], a[2], n)) != "ok inf"
+
+
+KNOWN = {"bls12-381-cofactor": _bls_cofactor}
 
 BIG = ("secp256k1", "secp256r1")
 
@@ -110,6 +122,15 @@ def _in_quantifier(tok, *pts) -> bool:
 
 
 def oracle(op: str, out: str):
+    """the property evaluated on the implementation alone; an auxiliary implementation call that raises where the property
+    says it cannot (sum of two curve points, multiple of a curve point) makes the answer unparsable and is reported"""
+    try:
+        return _oracle(op, out)
+    except (ValueError, IndexError, TypeError) as e:
+        return "an auxiliary group operation on curve points raised or returned a malformed value (%s: %s)" % (type(e).__name__, str(e)[:80])
+
+
+def _oracle(op: str, out: str):
     a = op.split(" ")
     k = a[0]
     if k in ("ec_add", "ec_sub"):
@@ -166,7 +187,13 @@ def oracle(op: str, out: str):
         if not on_curve(tok, P):
             return None
         if split_curve(tok)[0] == "bls12_381" and not _bls_in_subgroup(P):
-            return None  # cofactor: documentation stream only
+            # the curve has a cofactor: `e %= order` is only right on the order-r subgroup.  Compared with the ladder of
+            # the order-less curve object (k*P as repeated doubling/adding, no reduction of k)
+            if e >= 0 and P != (None, None):
+                ref = cc.impl("ec_mul_orderless %s %s %d" % (tok, a[2], e))
+                if ref.startswith("ok ") and out.startswith("ok ") and _canon_s(tok, ref[3:]) != _canon_s(tok, out[3:]):
+                    return "k*P differs from P added to itself k times on a point outside the order-r subgroup (cofactor): %s" % ref[:80]
+            return None
         R = _ok_pt(out)
         if R is None:
             return "scalar multiplication raised: " + out
@@ -437,6 +464,8 @@ def gen(ctx, emit):
             for A, B in ((P1, P1), (P1, Pm1), (P1, P2), (P2, neg2), (P3, P3), (Pm1, Pm1)):
                 for sa, sb in (((p, 0), (0, 0)), ((0, 0), (p, 0)), ((0, p), (0, 0)), ((0, 0), (0, p)), ((p, p), (2 * p, -p)), ((-p, 0), (0, 0)),
                                ((0, -p), (0, 0)), ((0, 0), (-p, -p)), ((3 * p, 0), (-2 * p, p))):
+                    if A[0] is None or B[0] is None:
+                        continue  # only when a constant of the curve was changed: (n-1)*G is then not what it should be
                     emit("ec_add %s %d,%d %d,%d" % (tok, A[0] + sa[0], A[1] + sa[1], B[0] + sb[0], B[1] + sb[1]))
             emit("ec_sub %s %s %s" % (tok, show_pt(P3), show_pt(P1)))
             emit("ec_sub %s %s %s" % (tok, show_pt(P1), show_pt(P1)))
@@ -455,10 +484,11 @@ def gen(ctx, emit):
             emit("ec_mul %s %d,%d 5" % (tok, P1[0] + 1, P1[1]))
             # scalar multiplication: boundary scalars on G and on another point, reduced and unreduced
             sc = _scalars(rng, n, p)
-            for e in sc:
+            for i, e in enumerate(sc):
                 emit("ec_mul %s %s %d" % (tok, show_pt(G), e))
                 emit("ec_rawmul %s %d" % (tok, e))
-                emit("ec_genmul %s %d" % (tok, e))
+                if i % 2 == 0 or ctx.thorough:
+                    emit("ec_genmul %s %d" % (tok, e))
             for e in sc[:12]:
                 emit("ec_mul %s %s %d" % (tok, show_pt(P3), e))
                 emit("ec_mul %s inf %d" % (tok, e))
@@ -477,7 +507,7 @@ def gen(ctx, emit):
         # ---------------- random stream
         for cfg in cfgs:
             tok = name + "/" + cfg
-            nrand = ctx.n(6, 120) if name != "bls12_381" else ctx.n(3, 40)
+            nrand = ctx.n(5, 120) if name != "bls12_381" else ctx.n(3, 40)
             pts = []
             for _ in range(nrand):
                 k = rng.randrange(1, n)
@@ -525,7 +555,7 @@ def gen(ctx, emit):
         if cc.toy_params(tok)[0] < 260:
             emit("ec_toy_addtable " + tok, "toy-table")
     # single ops on toy curves: unreduced coordinates, all scalars classes, points_for_x over the whole field
-    for tok in rng.sample(toy_small, ctx.n(25, 300)) + mids:
+    for tok in rng.sample(toy_small, ctx.n(20, 300)) + mids:
         p, ca, cb, gx, gy, n = consts(tok)
         pts = [(None, None)] + cc.curve_points(p, ca, cb)
         for _ in range(ctx.n(6, 40)):
@@ -546,6 +576,7 @@ def gen(ctx, emit):
     # ---------------- documentation stream (outside the quantifier; never judged by the oracle): curves of even order
     # (a point with y = 0), an order-less curve cannot be expressed through Generator; negative scalars there are an
     # AssertionError in Curve.multiply and are compared model-vs-implementation only in the model's own tests
+    doc_ops = []
     for p in (7, 11, 19):
         for ca in range(p):
             for cb in range(p):
@@ -557,10 +588,16 @@ def gen(ctx, emit):
                     G = next(P for P in pts if P[1] != 0)
                     tok = "toy:%d:%d:%d:%d:%d:%d" % (p, ca, cb, G[0], G[1], len(pts) + 1)
                     T = tors[0]
-                    emit("ec_add %s %s %s" % (tok, show_pt(T), show_pt(T)), "doc-even-order")
-                    emit("ec_neg %s %s" % (tok, show_pt(T)), "doc-even-order")
-                    emit("ec_points_for_x %s %d" % (tok, T[0]), "doc-even-order")
+                    doc_ops += ["ec_add %s %s %s" % (tok, show_pt(T), show_pt(T)), "ec_neg %s %s" % (tok, show_pt(T)),
+                                "ec_points_for_x %s %d" % (tok, T[0])]
                     break
             else:
                 continue
             break
+    # order-less curve, negative scalar: AssertionError in Curve.multiply (`_leftmost_bit` asserts x > 0)
+    gx, gy = consts("secp256k1")[3:5]
+    doc_ops += ["ec_mul_orderless secp256k1/pure %d,%d -5" % (gx, gy), "ec_mul_orderless secp256k1/pure %d,%d 5" % (gx, gy)]
+    import lib
+    doc_model = lib.run_driver(doc_ops)
+    ctx.extra_cov["documentation_outside_quantifier"] = [
+        {"op": o, "implementation": cc.impl(o), "model": m} for o, m in zip(doc_ops, doc_model)]
